@@ -15,7 +15,7 @@ import (
 	"sort"
 	"strconv"
 	"strings"
-	"sync"
+	"sync/atomic"
 	"testing"
 	"time"
 
@@ -500,24 +500,31 @@ func vfC10BackgroundVariant(c *vfC10Case, ctx *vfCtx, st *PersistentHybridIndex,
 	if strings.HasSuffix(c.BgParkAt, ":vector") && conf.VecKind == "none" || strings.HasSuffix(c.BgParkAt, ":metadata") && !conf.HasMeta {
 		c.BgParkAt = "flush:written"
 	}
+	// files of completed segments (present now) are protected; what the parked flush leaves half-written
+	// may be cleaned up by a recovery
+	vfProtectedFiles = map[string]bool{}
+	for name := range vfReadDirImage(dir) {
+		vfProtectedFiles[name] = true
+	}
+	defer func() { vfProtectedFiles = nil }()
 	parked, release := make(chan struct{}), make(chan struct{})
-	var once sync.Once
+	var once atomic.Bool // only the FIRST arrival parks; later arrivals pass (sync.Once would block them until the first returns)
 	vfInstallHook(func(name string, args ...any) {
 		if name == c.BgParkAt {
-			once.Do(func() {
+			if once.CompareAndSwap(false, true) {
 				close(parked)
 				<-release
-			})
+			}
 		}
 	})
 	vfStoreRotate(st)
 	vfStoreKickFlushWorker(st)
 	select {
 	case <-parked:
-	case <-time.After(5 * time.Second):
+	case <-time.After(60 * time.Second):
 		close(release)
 		st.Close()
-		return vfFail("the background flush worker did not reach %s within 5 s of being woken with a frozen memtable pending", c.BgParkAt)
+		return vfFail("the background flush worker did not reach %s within 60 s of being woken with a frozen memtable pending", c.BgParkAt)
 	}
 	all := map[uint32]*vfStoreDoc{}
 	for id, d := range durable {
